@@ -519,6 +519,7 @@ func checkC14(c *Ctx) {
 	c.Assume("uint64 wrap-around of id counters (2^64 assignments) is not modelled")
 
 	c14Renumber(c)
+	c14TwoContainers(c)
 	c14Transport(c)
 	c14GetterValues(c)
 	c14ConcurrentJSON(c)
@@ -1053,5 +1054,103 @@ func c14GetterValues(c *Ctx) {
 		}
 		c.Count(id, true, "stream:getter-values")
 		f.Close()
+	}
+	// … and a float characteristic that declares no bounds (nothing clamps): the application sets such a value itself
+	// (a division by zero of its own), or supplies it on demand
+	for i, bad := range []float64{math.Inf(1), math.Inf(-1), math.NaN()} {
+		for _, how := range []string{"SetValue", "OnValueGet"} {
+			id := fmt.Sprintf("unbounded-float#%d%s", i, how)
+			if c.Skip(id) {
+				continue
+			}
+			cam := accessory.New(accessory.Info{Name: "Cam"}, accessory.TypeIPCamera)
+			svc := service.New("F0AC")
+			zoom := characteristic.NewOpticalZoom()
+			svc.AddCharacteristic(zoom.Characteristic)
+			cam.AddService(svc)
+			lamps := []*accessory.Accessory{cam}
+			for k := 0; k < 3; k++ {
+				lamps = append(lamps, accessory.NewSwitch(accessory.Info{Name: fmt.Sprint("S", k)}).Accessory)
+			}
+			f, addr, err := verifiedFixture(c, lamps)
+			if err != nil {
+				c.Violate("fixture cannot be built", id, nil, "fixture", err.Error())
+				continue
+			}
+			if how == "SetValue" {
+				zoom.SetValue(bad)
+			} else {
+				v := bad
+				zoom.OnValueGet(func() interface{} { return v })
+			}
+			in := map[string]interface{}{"characteristic": "OpticalZoom (float, no declared bounds)", "the_application": fmt.Sprintf("%s(%v)", how, bad)}
+			for _, target := range []string{fmt.Sprintf("/characteristics?id=%d.%d", cam.ID, zoom.ID), "/accessories"} {
+				st, body, _, pm := f.Do(addr, "GET", target, "", nil)
+				var any interface{}
+				if pm != "" || (st != 200 && st != 207) || json.Unmarshal(bytes.TrimSpace(body), &any) != nil {
+					c.Violate("the attribute database is not served as well-formed JSON (a value that cannot be encoded was stored)", id, in, "200 + JSON", fmt.Sprint(target, ": ", st, " ", trunc(string(body), 100), pm))
+					break
+				}
+			}
+			c.Count(id, true, "stream:getter-values")
+			f.Close()
+		}
+	}
+}
+
+// c14TwoContainers: accessory objects are served by more than one container (a bridge and a stand-alone transport for one
+// of its accessories; two bridges with an overlap). "In every accessory container, accessory ids are unique and non-zero":
+// adding an accessory to a second container must not disturb the first — its ids there stay what they were and stay unique.
+func c14TwoContainers(c *Ctx) {
+	ctors := []func(accessory.Info) *accessory.Accessory{
+		func(i accessory.Info) *accessory.Accessory { return accessory.NewSwitch(i).Accessory },
+		func(i accessory.Info) *accessory.Accessory { return accessory.NewOutlet(i).Accessory },
+		func(i accessory.Info) *accessory.Accessory { return accessory.NewColoredLightbulb(i).Accessory },
+		func(i accessory.Info) *accessory.Accessory { return accessory.NewBridge(i).Accessory },
+	}
+	for i := 0; i < c.Pick(40, 2000); i++ {
+		id := c.CaseID("two-containers", i)
+		if c.Skip(id) {
+			continue
+		}
+		r := c.CaseRng("two-containers", i)
+		n := 2 + r.Intn(6)
+		var pool []*accessory.Accessory
+		for k := 0; k < n; k++ {
+			pool = append(pool, ctors[r.Intn(len(ctors))](accessory.Info{Name: fmt.Sprint("A", k)}))
+		}
+		first := accessory.NewContainer()
+		for _, a := range pool {
+			first.AddAccessory(a)
+		}
+		ids := func(cn *accessory.Container) string {
+			var l []string
+			for _, a := range cn.Accessories {
+				l = append(l, fmt.Sprint(a.ID))
+			}
+			return strings.Join(l, ",")
+		}
+		before := ids(first)
+		second := accessory.NewContainer()
+		var order []int
+		for _, k := range r.Perm(n)[:1+r.Intn(n)] {
+			order = append(order, k)
+			if r.Intn(3) == 0 {
+				second.AddAccessory(ctors[r.Intn(len(ctors))](accessory.Info{Name: "fresh"})) // one of its own in between
+				order = append(order, -1)
+			}
+			second.AddAccessory(pool[k])
+		}
+		in := map[string]interface{}{"first_container": fmt.Sprintf("%d accessories, added in order, ids %s", n, before),
+			"second_container_adds": fmt.Sprint(order, " (indices into the first; -1 = an accessory of its own)")}
+		if after := ids(first); after != before {
+			c.Violate("the accessory ids served by a container change when its accessories are added to another container", id, in, before, after)
+		}
+		for k, cn := range []*accessory.Container{first, second} {
+			for _, p := range idProblems(cn) {
+				c.Violate("attribute database ids: "+p+" (accessories shared by two containers)", id, in, "unique non-zero ids", fmt.Sprintf("container %d: %s", k+1, ids(cn)))
+			}
+		}
+		c.Count(fmt.Sprint(id, order), true, "stream:two-containers")
 	}
 }
